@@ -26,13 +26,59 @@ HORIZON = 135.0
 STATES: set[Any] = set()
 
 
-def run_case(seq: tuple[int, ...]) -> list[tuple[str, str]]:
+def parse_policy(opt: Any, base: tuple[str, float]) -> tuple[str, float]:
+    """Tracker (kind, interval in seconds) a policy denotes; `base` supplies what the policy leaves open.
+    Written from the documentation of sync_state / state_updater: True = the default policy, a number = minutes with the default
+    kind, 'init' | 'expire [m]' | 'every [m]'."""
+    kind, interval = base
+    if isinstance(opt, bool):
+        return base
+    if isinstance(opt, int | float):
+        return kind, max(1.0, float(opt)) * 60.0
+    words = str(opt).split()
+    kind = {"INIT": "init", "EXPIRE": "expire", "EVERY": "every"}[words[0].upper()]
+    if len(words) > 1:
+        interval = max(1.0, float(words[1])) * 60.0
+    return kind, interval
+
+
+def effective(default: Any, sync: Any) -> tuple[str, float]:
+    """What a value with `sync_state=sync` does under XKNX(state_updater=default); ('none', 0) = not registered."""
+    dflt = parse_policy(default, ("expire", 3600.0))
+    if sync is None:
+        sync = bool(default)
+    if sync is False:
+        return "none", 0.0
+    return parse_policy(sync, dflt)
+
+
+# (XKNX-wide default policy, per value sync_state).  Configuration 0 is the original one (explicit string policies, library default).
+CONFIGS: list[tuple[Any, tuple[Any, Any, Any]]] = [
+    (False, ("init", "expire 1", "every 1")),
+    ("every 2", (None, False, 1)),
+    ("init", (True, 1, "expire 1")),
+    (True, (None, False, "every 1")),
+    (False, (None, True, 1)),
+    (1, (None, "every", "init")),
+    ("expire 1", (2, False, "every")),
+]
+CFG = [0]
+
+
+def cur_rvs() -> list[tuple[str, str, Any, str, float]]:
+    default, syncs = CONFIGS[CFG[0]]
+    return [(name, ga, sync, *effective(default, sync)) for (name, ga, _s), sync in zip(RVS, syncs)]
+
+
+def run_case(seq: tuple[int, ...], cfg: int = 0) -> list[tuple[str, str]]:
     viols: list[tuple[str, str]] = []
-    with CoreWorld(t0=1000.0, rate_limit=0) as w:
+    CFG[0] = cfg
+    default = CONFIGS[cfg][0]
+    with CoreWorld(t0=1000.0, rate_limit=0, state_updater=default) as w:
         xknx = w.xknx
         loop = w.loop
         devs = {}
-        for name, ga, sync in RVS:
+        for name, ga, sync, _k, _i in cur_rvs():
             devs[name] = Sensor(xknx, name, group_address_state=ga, value_type="temperature", sync_state=sync)
             xknx.devices.async_add(devs[name])
         # log: (seqno, time, kind, name)
@@ -159,7 +205,7 @@ def run_case(seq: tuple[int, ...]) -> list[tuple[str, str]]:
             if not f.done():
                 f.set_result(None)
         loop.settle()
-        w.run(HORIZON)
+        w.run(max([HORIZON] + [2 * i + 15 for _n, _g, _s, _k, i in cur_rvs() if i < 1000]))
         end = loop.time()
         viols += check_log(log, end, used_hold, trace)
         for name, exc in w.task_escapes():
@@ -171,13 +217,12 @@ def run_case(seq: tuple[int, ...]) -> list[tuple[str, str]]:
 def check_log(log: list[tuple[float, str, str]], end: float, used_hold: bool, trace: list[str]) -> list[tuple[str, str]]:
     """The reference timer model, as a checker over the complete event/read log (entries are in causal order)."""
     viols: list[tuple[str, str]] = []
-    ctx = f"trace={trace} log={[(round(t - 1000, 3), k, n) for t, k, n in log]}"
+    ctx = f"config(state_updater={CONFIGS[CFG[0]][0]!r}, sync_state={list(CONFIGS[CFG[0]][1])}) trace={trace} log={[(round(t - 1000, 3), k, n) for t, k, n in log]}"
     progress: list[tuple[float, float, str]] = []
-    for name, _ga, sync in RVS:
-        kind = sync.split()[0]
+    for name, _ga, _sync, kind, INTERVAL in cur_rvs():  # noqa: N806
         # maximal periods [s, e) (as log indices and times) in which the value is registered and the connection is up
         periods: list[tuple[int, float, int, float]] = []
-        conn, reg = False, True
+        conn, reg = False, kind != "none"
         start: tuple[int, float] | None = None
         for i, (t, k, n) in enumerate(log):
             was = conn and reg
@@ -188,7 +233,7 @@ def check_log(log: list[tuple[float, str, str]], end: float, used_hold: bool, tr
             elif k == "unreg" and n == name:
                 reg = False
             elif k == "reg" and n == name:
-                reg = True
+                reg = kind != "none"
             now = conn and reg
             if now and not was:
                 start = (i, t)
@@ -284,9 +329,26 @@ def worker(k: int, n: int, depth: int) -> Part:
             part.nontrivial += 1
         part.outcomes["violating" if viols else "ok"] += 1
         for s, d in viols:
-            part.viol(s, d, list(seq), rank=(len(seq), seq))
+            part.viol(s, d, list(seq), rank=(len(seq), 0, seq))
         if part.evaluations <= 2:
             part.sample([EVENTS[e] for e in seq])
+    # the other configurations of the XKNX-wide default policy x per-value sync_state forms, one level shallower
+    short = sequences(depth - 1)
+    j = 0
+    for cfg in range(1, len(CONFIGS)):
+        for seq in short:
+            j += 1
+            if j % n != k:
+                continue
+            viols = run_case(seq, cfg)
+            part.evaluations += 1
+            part.traces += 1
+            part.transitions += len(seq)
+            part.nontrivial += 1
+            part.outcomes["violating" if viols else "ok"] += 1
+            for s, d in viols:
+                part.viol(s, d, {"cfg": cfg, "seq": list(seq)}, rank=(len(seq), cfg, seq))
+    CFG[0] = 0
     for k_ in STATES:
         part.state(k_)
     STATES.clear()
@@ -300,7 +362,9 @@ def run(ctx: Ctx) -> None:
         f"telegrams per value, bus answers to the outstanding reads, unregister/register of the 'expire' value, an outgoing telegram held in the interface and released, time), then {HORIZON} s of timers. Every "
         "GroupValueRead is logged when it is queued. Reference timer model as a checker over the complete log: no read while disconnected or unregistered; init never again; every: next read one interval after "
         "the previous read finished (not earlier, and not later than the slot wait allows); expire: only after a full interval without update or read, and then it does read; one initial read per (re)connection; "
-        "at most two reads in progress (a read ends with its answer, its 2 s timeout, or when its tracker is stopped)."
+        "at most two reads in progress (a read ends with its answer, its 2 s timeout, or when its tracker is stopped). "
+        f"The same sequences one level shallower under {len(CONFIGS) - 1} other configurations of the XKNX-wide policy (state_updater = 'every 2', 'init', True, False, 1, 'expire 1') x per-value sync_state forms "
+        "(None, False, True, a number, a policy without interval), the effective tracker of each value computed by the harness from the documented meaning of the options."
     )
     ctx.assumptions = ["liveness clauses (a read must happen by ...) are evaluated only in histories without a held outgoing telegram", "reading fixed: a read whose tracker was stopped (disconnect/unregister) no longer counts as in progress"]
     ctx.bounds = {"depth": depth, "sequences": len(sequences(depth)), "horizon_s": HORIZON}
@@ -308,4 +372,6 @@ def run(ctx: Ctx) -> None:
 
 
 def replay(case: Any) -> list[tuple[str, str]]:
+    if isinstance(case, dict):
+        return run_case(tuple(case["seq"]), case["cfg"])
     return run_case(tuple(case))
